@@ -128,7 +128,7 @@ func runC01(c *Ctx) {
 		}
 		// script-taking constructors
 		for k := 0; k < c.Pick(12, 120); k++ {
-			script := randBytes(c.Rng, []int{0, 1, 20, 25, 32, 33, 55, 56, 64, 119, 120, 200}[k%12])
+			script := randBytes(c.Rng, []int{0, 1, 20, 25, 32, 33, 55, 56, 64, 119, 120, 200, 520, 521, 1000, 10001}[k%16])
 			for _, ctor := range []string{"ScriptHash", "ScriptHash32", "LegacyScriptHash"} {
 				renderings(c, newAddr(c, ctor, net, script), ctor, net)
 			}
@@ -456,6 +456,45 @@ func runC03(c *Ctx) {
 							decodeCash(c, w)
 						}
 						decodeCash(c, pfx+":"+body[:len(body)-1]+" ")
+						// the last character in the other case (a scan that stops one short never sees it)
+						for q := len(body) - 1; q >= 0; q-- {
+							if ch := body[q]; ch >= 'a' && ch <= 'z' {
+								decodeCash(c, pfx+":"+body[:q]+string(ch-32)+body[q+1:])
+								up := strings.ToUpper(body)
+								decodeCash(c, strings.ToUpper(pfx)+":"+up[:q]+string(ch)+up[q+1:])
+								break
+							}
+						}
+						// byte-level aliases of a character (bit 5 cleared: digits become control bytes; bit 7 set; bits 6 / 4 flipped)
+						for t := 0; t < 6; t++ {
+							q := r.Intn(len(body))
+							if t < 3 {
+								for j := 0; j < len(body); j++ {
+									if d := body[(q+j)%len(body)]; d >= '0' && d <= '9' {
+										q = (q + j) % len(body)
+										break
+									}
+								}
+							}
+							for _, al := range []byte{body[q] &^ 0x20, body[q] | 0x80, body[q] ^ 0x40, body[q] ^ 0x10} {
+								if al != body[q] && !(al >= 'A' && al <= 'Z') {
+									decodeCash(c, pfx+":"+body[:q]+string([]byte{al})+body[q+1:])
+								}
+							}
+						}
+						// upper-case rendering with one symbol replaced by each upper-case letter / digit outside the alphabet
+						up := strings.ToUpper(body)
+						for _, fc := range "BIO1" {
+							for t := 0; t < 3; t++ {
+								q := r.Intn(len(up))
+								if t == 0 { // where the symbol of value 1 ('P') stands, and value 0 ('Q')
+									if j := strings.IndexAny(up, "PQ"); j >= 0 {
+										q = j
+									}
+								}
+								decodeCash(c, strings.ToUpper(pfx)+":"+up[:q]+string(fc)+up[q+1:])
+							}
+						}
 					}
 				}
 				// every single substitution inside the checksum and (sampled) the payload:
